@@ -1,6 +1,3 @@
 package main
 
-// placeholder stubs, filled in below
-func genEnum(e *emitter, depth, budget int) (int, bool)             { return 0, true }
-func replayCrypto(data []byte)                                      {}
-func mainCrypto(out, prefix string, perShard, n int, corpus string) {}
+func genEnum(e *emitter, depth, budget int) (int, bool) { return 0, true }
